@@ -173,12 +173,20 @@ func (u *Upstream) Close(ctx context.Context, opts ...UpstreamCloseOption) error
 }
 
 func (u *Upstream) closeWithError(ctx context.Context, causeError error, opts ...UpstreamCloseOption) error {
-	return u.closeWithState(ctx, u.State(), causeError, opts...)
+	// the wire connection is replaced by resume under the stream lock: read it under that lock
+	u.mu.RLock()
+	state, wireConn := u.stateWithoutLock(), u.wireConn
+	u.mu.RUnlock()
+	return u.closeOn(ctx, wireConn, state, causeError, opts...)
 }
 
 // closeWithState is closeWithError for callers that already hold the stream lock and pass the
 // state they read under it.
 func (u *Upstream) closeWithState(ctx context.Context, state *UpstreamState, causeError error, opts ...UpstreamCloseOption) error {
+	return u.closeOn(ctx, u.wireConn, state, causeError, opts...)
+}
+
+func (u *Upstream) closeOn(ctx context.Context, wireConn *wire.ClientConn, state *UpstreamState, causeError error, opts ...UpstreamCloseOption) error {
 	defer u.cancel()
 	if u.isClosed() {
 		return nil
@@ -189,7 +197,7 @@ func (u *Upstream) closeWithState(ctx context.Context, state *UpstreamState, cau
 		v(&opt)
 	}
 
-	resp, err := u.wireConn.SendUpstreamCloseRequest(ctx, &message.UpstreamCloseRequest{
+	resp, err := wireConn.SendUpstreamCloseRequest(ctx, &message.UpstreamCloseRequest{
 		StreamID:            u.ID,
 		TotalDataPoints:     state.TotalDataPoints,
 		FinalSequenceNumber: state.LastIssuedSequenceNumber,
